@@ -546,6 +546,20 @@ func (g *G) SendOp(label string) *Op {
 		rc = rc[:g.Int(label+"/rcl", 0, 31)]
 	}
 	body := g.Body(label + "/body")
+	if g.Pct(label+"/burnshaped", 12) {
+		b := &refcodec.Burn{Version: 0, BurnToken: attest.Keccak([]byte(strings.ToLower(g.W.Model.L.Denom))), MintRecip: g.NonZero32(label+"/bmr", by),
+			Amount: g.PosAmount(label + "/bamt"), MsgSender: Pad32(fromBytes(by))}
+		body, _ = refcodec.EncodeBurn(b)
+		if uint64(len(body)) > g.W.Model.MaxBody {
+			body = g.Body(label + "/body2")
+		}
+		if ds := g.modelMsgrDomains(); len(ds) > 0 {
+			d := Pick(g, label+"/bdom", ds)
+			if ms := g.W.Model.Msgrs[d]; len(ms) == 32 && !IsZero(ms) {
+				return TxOp("send", &types.MsgSendMessage{From: by, DestinationDomain: d, Recipient: ms, MessageBody: body})
+			}
+		}
+	}
 	if g.Bool(label + "/withcaller") {
 		cl := g.B32(label+"/cl", by)
 		if g.Pct(label+"/cllen", 8) {
@@ -694,6 +708,12 @@ func (g *G) AddrString(label string) string {
 		return sdk.AccAddress(g.Bytes(label+"/fresh", 20)).String()
 	case 7:
 		return sdk.AccAddress(g.Bytes(label+"/long", 32)).String()
+	case 8:
+		a := Acct(g.Acct(label + "/a"))
+		return Pick(g, label+"/ws", []string{" " + a, a + " ", "\t" + a, a + "\n", " " + a + " ", a + "\x00"})
+	case 9, 10:
+		// the current holder of some role (two slots may point at one account)
+		return g.W.Model.Roles[g.Int(label+"/slot", 0, 3)]
 	default:
 		return Acct(g.Acct(label + "/a"))
 	}
@@ -760,7 +780,11 @@ func (g *G) AdminOpOf(label, t string, by string) *Op {
 		msg = &types.MsgDisableAttester{From: by, Attester: g.AttesterString(label + "/att")}
 	case "UpdateSignatureThreshold":
 		n := len(m.Atts)
-		msg = &types.MsgUpdateSignatureThreshold{From: by, Amount: uint32(maxInt(0, n+g.Int(label+"/d", -n, 2)))}
+		amt := uint32(maxInt(0, n+g.Int(label+"/d", -n, 2)))
+		if g.Pct(label+"/hostile", 12) {
+			amt = Pick(g, label+"/hv", []uint32{1<<31 - 1, 1 << 31, 1<<31 + uint32(n), 1<<31 + uint32(n) + 1, 1<<32 - 1, 1 << 16, 256})
+		}
+		msg = &types.MsgUpdateSignatureThreshold{From: by, Amount: amt}
 	case "PauseBurningAndMinting":
 		msg = &types.MsgPauseBurningAndMinting{From: by}
 	case "UnpauseBurningAndMinting":
@@ -1135,7 +1159,22 @@ func (g *G) RepDepOp(label string, validPct int) *Op {
 			orig = g.forgeOutbound(label+"/forge", Pad32(ModuleAddrBytes()), true, by)
 			cls = "forged-module"
 		case k == 3 && len(g.W.Sent) > 0:
-			orig = Pick(g, label+"/orig", g.W.Sent).Bytes
+			// any message this chain really emitted, preferably a user-sent one with a burn-shaped body
+			var us []SentMsg
+			for _, s := range g.W.Sent {
+				if s.Burn != nil && !bytes.Equal(s.Msg.Sender, Pad32(ModuleAddrBytes())) {
+					us = append(us, s)
+				}
+			}
+			if len(us) > 0 && g.Pct(label+"/userburn", 70) {
+				s := Pick(g, label+"/uorig", us)
+				orig = s.Bytes
+				if a := s.Burn.MsgSender; IsZero(a[:12]) && AcctOfBytes(a[12:]) >= 0 {
+					by = sdk.AccAddress(a[12:]).String()
+				}
+			} else {
+				orig = Pick(g, label+"/orig", g.W.Sent).Bytes
+			}
 			cls = "any-sent"
 		case k == 4:
 			orig = g.Bytes(label+"/short", g.Int(label+"/sl", 0, 250))
